@@ -1,55 +1,56 @@
 """constants of the signed-message / RPC-conversion code (C18) -> Gen/SignedConfig.v
-(src, need, emit, missing, re are injected by tools/gen.py)"""
+(src, need, expect, emit, missing, re are injected by tools/gen.py)"""
 
 def generate():
+    # ---- HARD (need): constants the model imports through Gen/SignedConfig.v
     pb = "crates/libs/scion-protobuf/src/proto/proto.crypto.v1.rs"
     t = src(pb)
     alg = {}
     for nm in ("Unspecified", "EcdsaWithSha256", "EcdsaWithSha384", "EcdsaWithSha512"):
-        m = need(t, r"pub enum SignatureAlgorithm \{.*?\b" + nm + r" = (\d+),", "SignatureAlgorithm::" + nm, pb, re.S)
+        m = need(t, r"pub enum SignatureAlgorithm \{.*?\b" + nm + r"\s*=\s*(\d+)\s*,", "SignatureAlgorithm::" + nm, pb, re.S)
         alg[nm] = int(m.group(1)) if m else 0
-    sm = "crates/libs/sciparse/src/scion/signed_message.rs"
-    t = src(sm)
-    # order of the checks in SignedMessage::validate (the model follows it)
-    need(t, r"HeaderAndBodyInternal::decode\(.*?Header::decode\(.*?key_provider\(&header\.verification_key_id\[\.\.\]\)\?;"
-            r".*?header\.associated_data_length as usize != associated_data\.0.*?InvalidDigestAlgorithm"
-            r".*?Signature::from_der\(&self\.signature\).*?verify_prehash\(&hash, &sig\)",
-         "validate: decode, header, key, length, algorithm, DER, verify (in this order)", sm, re.S)
-    need(t, r"associated_data_length: associated_data\.0 as i32,", "sign: associated_data_length = len as i32", sm)
-    need(t, r"hasher\.update\(msg\);\s*for chunk in data \{\s*hasher\.update\(chunk\.as_ref\(\)\);", "hash(msg, chunks)", sm)
-    sg = "crates/libs/sciparse/src/scion/segment.rs"
-    t = src(sg)
-    need(t, r"\.position\(\|e\| std::ptr::eq\(&e\.entry, self\)\)\s*\.unwrap_or\(path_segment\.as_entries\.len\(\)\);",
-         "associated_data: position by identity, else len", sg)
-    need(t, r"pub fn associated_data_at<'seg>\(.*?\.take\(position\)\s*\.flat_map\(\|entry\| \{\s*\[\s*entry\.signed\.header_and_body\.as_slice\(\),\s*entry\.signed\.signature\.as_slice\(\),",
-         "associated_data_at: take(position), [header_and_body, signature]", sg, re.S)
-    need(t, r"std::iter::once\(path_segment\.info\.encoded\.as_slice\(\)\)\.chain\(entry_iter\)", "info first, then entries", sg)
     rp = "crates/libs/sciparse/src/scion/segment/rpc.rs"
     t = src(rp)
-    m = need(t, r"if hop_field\.mac\.len\(\) != (\d+) \{", "HopField MAC length check", rp)
+    m = need(t, r"mac\s*\.len\(\)\s*!=\s*(\d+)", "HopField MAC length", rp)
     maclen = int(m.group(1)) if m else 0
-    need(t, r"hop_field\.mac\[\.\.(\d+)\]\s*\.try_into\(\)\s*\.expect\(", "mac[..6].try_into().expect", rp)
     md = "crates/libs/sciparse/src/scion/path/metadata.rs"
     t = src(md)
     lt = {}
     for k, nm in ((0, "Unset"), (1, "Direct"), (2, "MultiHop"), (3, "OpenNet")):
-        m = need(t, r"pub const fn from_i32\(value: i32\) -> Self \{.*?\b(\d+) => Self::" + nm + ",", "LinkType::from_i32 " + nm, md, re.S)
+        m = need(t, r"fn from_i32\(.*?\b(\d+)\s*=>\s*(?:Self|LinkType)::" + nm + r"\b", "LinkType::from_i32 " + nm, md, re.S)
         lt[nm] = int(m.group(1)) if m else k
-    need(t, r"_ => Self::Unknown\(value as u8\),", "LinkType::from_i32 Unknown(value as u8)", md)
-    need(t, r"if value\.latitude == 0\.0 && value\.longitude == 0\.0 && value\.address\.is_empty\(\) \{\s*return None;", "GeoCoordinates::try_from_rpc zero test", md)
+    # ---- SOFT (expect): mirrored statements; the harness observes their behaviour (result codes
+    # of validate per entry, values and re-encoded messages of the converters), so a miss only
+    # raises the case count.  Patterns pin operators / callees / constants, not locals or layout.
+    expect(t, r"Unknown\(\s*\w+\s+as\s+u8\s*\)", "LinkType::from_i32: Unknown(value as u8)", md)
+    expect(t, r"latitude\s*==\s*0\.0.*?longitude\s*==\s*0\.0.*?address\.is_empty\(\)", "GeoCoordinates::try_from_rpc zero test", md, re.S)
+    t = src(rp)
+    expect(t, r"mac\[\s*\.\.\s*(\d+)\s*\]", "mac[..6] slice (modelled panic site)", rp)
+    sm = "crates/libs/sciparse/src/scion/signed_message.rs"
+    t = src(sm)
+    expect(t, r"HeaderAndBodyInternal::decode\(.*?Header::decode\(.*?key_provider\(.*?"
+              r"associated_data_length\s+as\s+usize.*?InvalidDigestAlgorithm"
+              r".*?Signature::from_der\(.*?verify_prehash\(",
+           "validate: decode, header, key, length, algorithm, DER, verify (in this order)", sm, re.S)
+    expect(t, r"associated_data_length:\s*[\w\.]+\s+as\s+i32", "sign: associated_data_length = len as i32", sm)
+    expect(t, r"\.update\(msg\).*?for\s+\w+\s+in\s+data.*?\.update\(", "hash(msg, chunks in order)", sm, re.S)
+    sg = "crates/libs/sciparse/src/scion/segment.rs"
+    t = src(sg)
+    expect(t, r"\.position\(.*?ptr::eq\(.*?\)\s*\.unwrap_or\(\s*path_segment\.as_entries\.len\(\)\s*\)",
+           "associated_data: position by identity, else len", sg, re.S)
+    expect(t, r"fn associated_data_at.*?\.take\(\s*position\s*\).*?header_and_body.*?signature", "associated_data_at: take(position), header_and_body then signature", sg, re.S)
+    expect(t, r"once\(\s*path_segment\.info\.encoded.*?\)\s*\.chain\(", "info first, then entries", sg, re.S)
     pa = "crates/libs/sciparse/src/scion/path.rs"
     t = src(pa)
-    need(t, r"if interface_count == 0 \|\| !interface_count\.is_multiple_of\(2\)", "interface count check", pa)
-    need(t, r"let expected_count_ases = interface_count / 2 \+ 1;\s*let expected_count_links = interface_count - 1;\s*"
-            r"let expected_count_links_intra = interface_count / 2 - 1;\s*let expected_count_links_inter = interface_count / 2;",
-         "expected metadata vector lengths", pa)
-    need(t, r"meta\.latency = if latency\.seconds < 0 \{\s*None\s*\} else \{\s*latency\.try_into\(\)\.ok\(\)", "latency guard", pa)
-    need(t, r"meta\.bandwidth = \(bandwidth > 0\)\.then_some\(bandwidth\);", "bandwidth 0 = none", pa)
-    need(t, r"let link_count = if_meta\.len\(\)\.saturating_sub\(1\);", "to_rpc link_count", pa)
-    need(t, r"\.skip\(1\)\s*\.step_by\(2\)\s*\.take\(\(if_meta\.len\(\) / 2\)\.saturating_sub\(1\)\)", "to_rpc internal_hops", pa)
-    need(t, r"epic_auth: rpc_path\.epic_auths\.map\(", "try_from_rpc keeps epic_auths", pa)
-    need(t, r"rpc_path\.link_type = if_meta\s*\.iter\(\)\s*\.step_by\(2\)", "to_rpc link_type per inter-AS link", pa)
-    need(t, r"seconds: meta\.expiration\.try_into\(\)\.unwrap_or\(i64::MAX\)", "to_rpc expiration saturates", pa)
+    expect(t, r"interface_count\s*==\s*0\s*\|\|\s*!\s*interface_count\.is_multiple_of\(2\)|interface_count\s*%\s*2\s*!=\s*0", "interface count check", pa)
+    expect(t, r"interface_count\s*/\s*2\s*\+\s*1.*?interface_count\s*-\s*1.*?interface_count\s*/\s*2\s*-\s*1", "expected metadata vector lengths", pa, re.S)
+    expect(t, r"latency\.seconds\s*<\s*0", "latency guard", pa)
+    expect(t, r"bandwidth\s*>\s*0", "bandwidth 0 = none", pa)
+    expect(t, r"if_meta\.len\(\)\.saturating_sub\(1\)", "to_rpc link count", pa)
+    expect(t, r"\.skip\(1\)\s*\.step_by\(2\)\s*\.take\(", "to_rpc internal_hops", pa)
+    expect(t, r"epic_auth:\s*rpc_path\.epic_auths", "try_from_rpc keeps epic_auths", pa)
+    expect(t, r"link_type\s*=\s*if_meta\s*\.iter\(\)\s*\.step_by\(2\)", "to_rpc link_type per inter-AS link", pa)
+    expect(t, r"expiration\.try_into\(\)\.unwrap_or\(i64::MAX\)", "to_rpc expiration saturates", pa)
     body = f"""From Coq Require Import NArith ZArith.
 Definition SIGALG_UNSPECIFIED : Z := {alg['Unspecified']}.
 Definition SIGALG_SHA256 : Z := {alg['EcdsaWithSha256']}.
